@@ -269,3 +269,8 @@ def run(ctx):
 
     c16.extractor_rules(ctx)
     c16.field_e_rule(ctx)
+    # Dirichlet prescription of the field (dof <-> value pairing) and the Timoshenko bending/shear split
+    from . import c02, c03
+
+    c03.dofs_nodes_rule(ctx)
+    c02.sri_rule(ctx, lib)
